@@ -449,8 +449,9 @@ End Summary.
 
 Theorem oracle_sound : forall c : case, wf_case c = true -> corr_b c = true -> prop_b c = true.
 Proof.
-  intros [t0 ps g0 sh0 steps|mode t0 insts assets ops s0 steps final|wins total r|profits losses r|pnl price qty r]
-         Hwf H; cbn [corr_b prop_b wf_case] in *.
+  induction c as [t0 ps g0 sh0 steps|mode t0 insts assets ops s0 steps final|wins total r|profits losses r
+                  |pnl price qty r|pts ch c' IH]; intros Hwf H; cbn [corr_b prop_b wf_case] in *.
+  6:{ apply andb_true_iff in H. destruct H as [H1 H2]. rewrite H1. cbn [andb]. exact (IH Hwf H2). }
   - (* CSheet *)
     apply andb_true_iff in H. destruct H as [H Hrun]. apply andb_true_iff in H. destruct H as [Hg0 Hs0].
     change (tsg_init t0) with (tsg_run [] (tsg_init t0)) in Hs0 at 1. rewrite sheet_sound in Hs0.
